@@ -118,6 +118,16 @@ func (ft *FieldNameMap) Build() {
 	var min = defaultMaxBucketSize
 	var count = len(ft.all)
 
+	// NOTICE: caching.HashMap marks an empty slot by hash 0, thus it can't hold a key hashed to 0
+	if ft.maxKeyLength > 0 {
+		for _, v := range ft.all {
+			if v.Key != "" && caching.DJBHash32(v.Key) == 0 {
+				min = float64(count + 1)
+				break
+			}
+		}
+	}
+
 	for i := ft.maxKeyLength - 1; i >= 0; i-- {
 		cd := positionDispersion[i]
 		l := len(cd)
